@@ -1038,6 +1038,7 @@ class Project:
         if copytree is None:
             copytree = shutil.copytree
         dst = self.open_job(job.statepoint())
+        dst_existed = os.path.lexists(dst.path)
         try:
             copytree(job.path, dst.path)
         except OSError as error:
@@ -1046,6 +1047,10 @@ class Project:
             elif error.errno == errno.ENOENT:
                 raise ValueError("Source job not initialized.")
             else:
+                if not dst_existed:
+                    # Do not leave a partial copy behind: with the state point
+                    # file already copied it would pass for a complete job.
+                    shutil.rmtree(dst.path, ignore_errors=True)
                 raise
         return dst
 
